@@ -16,8 +16,11 @@ Definition norm (Y : list (core T)) : T :=
 Definition accuracy (Y1 Y2 : list (core T)) : T := norm (sub K Y1 Y2) / norm Y2.
 (* data.accuracy_on_data: ||get_many(Y, I) - y|| / ||y|| *)
 Definition sumsq (l : list T) : T := fold_left (fun s x => s + x * x) l 0.
+(*   y_norm = np.linalg.norm(y_data);  if y_norm == 0.: return -1.   (undefined relative error: sentinel) *)
 Definition accuracy_on_data (Y : list (core T)) (I : list (list nat)) (y : list T) : T :=
-  osqrt K (sumsq (map (fun p => get K Y (fst p) - snd p) (combine I y))) / osqrt K (sumsq y).
+  let yn := osqrt K (sumsq y) in
+  if oeqb K yn 0 then oopp K 1 else
+  osqrt K (sumsq (map (fun p => get K Y (fst p) - snd p) (combine I y))) / yn.
 (* props.erank *)
 Definition natT (n : nat) : T := oofZ K (Z.of_nat n).
 Definition erank (Y : list (core T)) : T :=
